@@ -144,7 +144,11 @@ void SimLexer::exec_top(const sim_xop *x)
 		return;
 	}
 	case SOP_SET_YYIN:
-		yyin.rdbuf(sim_stream_of(x->f)->rdbuf());
+		if (x->a == 2) {
+			switch_streams(sim_stream_of(x->f), (std::ostream *) 0);
+			sim_buf_replaced((void *) yy_current_buffer(), x->h);
+		} else
+			yyin.rdbuf(sim_stream_of(x->f)->rdbuf());
 		break;
 	case SOP_BEGIN:
 		yybegin((int) x->a);
